@@ -1,0 +1,14 @@
+//go:build !verif
+
+package hermes
+
+// Verification probes (see /verif/DESIGN.md). With the build tag "verif" off
+// these are empty and inlined away.
+
+func verifConfig(g *GlobalVarsMain, cfg *Config, hp *HFilePath)        {}
+func verifDayStart(g *GlobalVarsMain, zeit int)                        {}
+func verifAfterEvatra(g *GlobalVarsMain, zeit int, w *WaterSharedVars) {}
+func verifSubStep(g *GlobalVarsMain, zeit, subd int, steps, wdt float64, w *WaterSharedVars, n *NitroSharedVars) {
+}
+func verifDayEnd(g *GlobalVarsMain, zeit int, steps, wdt float64, c *CropSharedVars, w *WaterSharedVars) {
+}
